@@ -497,7 +497,7 @@ func (e *Engine) discharge(rep *FuncReport, cfg *RunCfg) {
 					sb.WriteString("; check: " + c.Name + "\n(push 1)\n(assert (not " + c.Goal + "))\n(check-sat)\n(pop 1)\n")
 				}
 			}
-			if !c.Cover && c.Kind != "callsonly" && (c.Kind != "post" || strings.HasPrefix(c.Func, "lemma.")) {
+			if !c.Cover && c.Kind != "callsonly" && c.Kind != "cancellable" && (c.Kind != "post" || strings.HasPrefix(c.Func, "lemma.")) {
 				sb.WriteString("(assert " + c.Goal + ")\n")
 			}
 		}
